@@ -7,6 +7,7 @@ import (
 	"sort"
 	"strings"
 	"time"
+	"unsafe"
 
 	el "github.com/hashicorp/eventlogger"
 	"github.com/hashicorp/eventlogger/filters/gated"
@@ -166,6 +167,13 @@ func (g *GateInst) applyRaw(op string) rawResult {
 	ctx := context.Background()
 	r := rawResult{kind: f[0]}
 	switch f[0] {
+	case "evx":
+		// the same as "ev" with an already cancelled context: gating and expiry must not depend on it
+		g.seq++
+		r.kind = "ev"
+		r.id, r.flush, r.seq = f[1], false, g.seq
+		r.in = &el.Event{Type: "t", Payload: &GP{ID: r.id, Seq: g.seq, Rec: g.Rec}}
+		r.out, r.err = g.F.Process(ctxDone, r.in)
 	case "ev":
 		g.seq++
 		r.id, r.flush, r.seq = f[1], len(f) > 2 && f[2] == "flush", g.seq
@@ -449,4 +457,33 @@ func (p *GP) VerifName() string {
 		}
 	}
 	return fmt.Sprintf("gp:%s:#%d:%v", p.ID, p.Seq, p.Flush)
+}
+
+// PrivateExpiries reads, by reflection, the expiry instants of the groups the
+// filter currently holds (id -> exp). ok=false if the private layout is not the
+// one this helper knows (the caller then skips its white-box invariant).
+func PrivateExpiries(f *gated.Filter) (map[string]time.Time, bool) {
+	defer func() { recover() }()
+	fv := reflect.ValueOf(f).Elem().FieldByName("gated")
+	if !fv.IsValid() || fv.Kind() != reflect.Map {
+		return nil, false
+	}
+	fv = reflect.NewAt(fv.Type(), unsafe.Pointer(fv.UnsafeAddr())).Elem()
+	out := map[string]time.Time{}
+	for _, k := range fv.MapKeys() {
+		ge := fv.MapIndex(k)
+		if ge.Kind() != reflect.Ptr || ge.IsNil() {
+			return nil, false
+		}
+		ex := ge.Elem().FieldByName("exp")
+		if !ex.IsValid() || ex.Type() != reflect.TypeOf(time.Time{}) {
+			return nil, false
+		}
+		p := reflect.New(ge.Elem().Type())
+		p.Elem().Set(reflect.NewAt(ge.Elem().Type(), unsafe.Pointer(ge.Pointer())).Elem())
+		ex = p.Elem().FieldByName("exp")
+		ex = reflect.NewAt(ex.Type(), unsafe.Pointer(ex.UnsafeAddr())).Elem()
+		out[k.String()] = ex.Interface().(time.Time)
+	}
+	return out, true
 }
